@@ -216,7 +216,15 @@ def run_case(spec, ctx):
                 P[int(rng.integers(4))] = 0.0
             if not np.any(P):
                 P[0] = 1.0
-            P *= loguniform(rng, 1e-3, 1e3) / np.linalg.norm(P)
+            lc = int(rng.integers(6))
+            if lc == 0:
+                length, lcls = 1.0, "unit"
+            elif lc == 1:
+                length, lcls = 1.0 + (1 if rng.random() < 0.5 else -1) * loguniform(rng, 1e-15, 1e-3), "nearunit"
+            else:
+                length, lcls = loguniform(rng, 1e-3, 1e3), "general"
+            P *= length / np.linalg.norm(P)
+            ctx.cls(f"quat_length:{lcls}")
             first = P.tolist() if b == 0 else first
             nontrivial = True
             n2 = lambda p: sum(x * x for x in p)
@@ -245,6 +253,11 @@ def run_case(spec, ctx):
                 return mp.matrix([[-x, w, z, -y], [-y, -z, w, x], [-z, y, -x, w]]) * 2
             D = _mp_partial(Tq_un, Pu, (3, 4))
             _report(ctx, "T_SO3_quat_P", Pu, R.T_SO3_quat_P(Pu, normalize=False), D, extra={"normalize": False})
+            # ... and the normalising variant at the same unit quaternion (all four ambient directions, no projection)
+            D = _mp_partial(Tq, Pu, (3, 4))
+            _report(ctx, "T_SO3_quat_P", Pu, R.T_SO3_quat_P(Pu, normalize=True), D, scale=max(1.0, np.abs(D).max()), extra={"normalize": True, "unit": True})
+            D = _mp_partial(Tiq, Pu, (4, 3))
+            _report(ctx, "T_SO3_inv_quat_P", Pu, R.T_SO3_inv_quat_P(Pu), D, extra={"unit": True})
     ctx.cls(f"kind:{kind}")
     ctx.sig([kind, first], nontrivial=nontrivial)
     ctx.sample({"kind": kind, "first_point": first})
